@@ -11,8 +11,8 @@ import GV.Spec.Conformance
 namespace GV.Props.C16
 open GV.SM GV.Spec.Conformance
 
-/-- The full statement: every protocol / mode / role the implementation has is listed with a
-    specification automaton, and conforms to it. -/
+/-- The full statement: every protocol / mode / role / version range the implementation has is
+    listed with a specification automaton, and conforms to it. -/
 def C16_full : Prop :=
   table.map (·.impl.name) = GV.Gen.StateMaps.all.map (·.name) ∧
   ∀ e ∈ table, conforms e = true
@@ -21,10 +21,37 @@ def C16_full : Prop :=
 theorem covers_every_machine :
     table.map (·.impl.name) = GV.Gen.StateMaps.all.map (·.name) := by decide
 
-/-- isomorphism + completeness + decodability, decided on the generated tables -/
-theorem conforms_all : ∀ e ∈ table, conforms e = true := by decide
+/-- isomorphism + completeness + decodability, decided on the generated tables, for everything
+    except the recorded finding (local-tx-monitor at NodeToClientV_20+) -/
+theorem conforms_all : ∀ e ∈ tableOk, conforms e = true := by decide
 
-theorem C16_holds : C16_full := ⟨covers_every_machine, conforms_all⟩
+/-- what holds of the full statement -/
+theorem C16_partial :
+    table.map (·.impl.name) = GV.Gen.StateMaps.all.map (·.name) ∧
+    ∀ e ∈ table, isV20 e = false → conforms e = true := by
+  refine ⟨covers_every_machine, ?_⟩
+  intro e he hv
+  apply conforms_all e
+  unfold tableOk
+  simp [List.mem_filter, he, hv]
+
+/-- the recorded finding: the implementation does not conform to the NodeToClientV_20+
+    local-tx-monitor — the specification accepts Acquire, Acquired, GetMeasures; the
+    implementation (which negotiates versions up to 21) refuses the third message -/
+theorem ltm_v20_witness :
+    GV.Spec.Automata.localTxMonitorV20.accepts [⟨1, 0⟩, ⟨2, 0⟩, ⟨11, 0⟩] = true ∧
+    GV.Gen.StateMaps.localtxmonitor_v20_client.accepts [⟨1, 0⟩, ⟨2, 0⟩, ⟨11, 0⟩] = false ∧
+    GV.Gen.StateMaps.localtxmonitor_v20_server.accepts [⟨1, 0⟩, ⟨2, 0⟩, ⟨11, 0⟩] = false ∧
+    (table.filter isV20).all (fun e => !conforms e) = true ∧ (table.filter isV20).length = 2 := by decide
+
+theorem C16_full_false : ¬ C16_full := by
+  intro h
+  have hm : (⟨GV.Gen.StateMaps.localtxmonitor_v20_client, GV.Spec.Automata.localTxMonitorV20, relLtm⟩ : Entry) ∈ table := by
+    have h' : table[20]'(by decide) = ⟨GV.Gen.StateMaps.localtxmonitor_v20_client, GV.Spec.Automata.localTxMonitorV20, relLtm⟩ := rfl
+    rw [← h']; exact List.getElem_mem _
+  have := h.2 _ hm
+  revert this
+  decide
 
 theorem conforms_iso {e : Entry} (h : conforms e = true) : isoCheck e.impl e.spec e.rel = true := by
   unfold conforms at h
@@ -33,22 +60,20 @@ theorem conforms_iso {e : Entry} (h : conforms e = true) : isoCheck e.impl e.spe
 
 /-- Language equality with the specification for traces of EVERY length, for every protocol,
     mode and role; and the states reached correspond under the bijection. -/
-theorem language_eq : ∀ e ∈ table, ∀ tr : List Sym,
+theorem language_eq : ∀ e ∈ tableOk, ∀ tr : List Sym,
     e.impl.accepts tr = e.spec.accepts tr ∧
     relOut e.rel (e.impl.run e.impl.init tr) (e.spec.run e.spec.init tr) :=
   fun e he tr => iso_language_eq (conforms_iso (conforms_all e he)) tr
 
 /-- Agency (hence also "terminal") agrees in corresponding states. -/
-theorem agency_eq : ∀ e ∈ table, ∀ p q, (p, q) ∈ e.rel → e.impl.agencyOf p = e.spec.agencyOf q :=
+theorem agency_eq : ∀ e ∈ tableOk, ∀ p q, (p, q) ∈ e.rel → e.impl.agencyOf p = e.spec.agencyOf q :=
   fun e he _ _ hpq => iso_agency (conforms_iso (conforms_all e he)) hpq
 
-/-- every message type the state machine permits is one the codec can decode -/
+/-- every message type the state machine permits is one the codec can decode — for EVERY
+    generated machine (including the ones of the recorded finding); `decodable` is the set of
+    types the protocol's own NewMsgFromCbor accepted when the table was regenerated -/
 theorem permitted_decodable : ∀ e ∈ table, ∀ t ∈ e.impl.trans, t.sym.msg ∈ e.impl.decodable := by
-  intro e he t ht
-  have h := conforms_all e he
-  unfold conforms at h
-  simp only [Bool.and_eq_true, List.all_eq_true] at h
-  simpa using h.1.2 t ht
+  decide
 
 /-! ### a reply is accepted only in response to the request kind it answers -/
 
@@ -102,11 +127,11 @@ theorem spec_ltm_reply_kind (pre : List Sym) :
 theorem reply_matches_request_ltm (pre : List Sym) :
     GV.Gen.StateMaps.localtxmonitor_client.accepts (pre ++ [⟨7, 0⟩, ⟨6, 0⟩]) = false ∧
     GV.Gen.StateMaps.localtxmonitor_server.accepts (pre ++ [⟨7, 0⟩, ⟨6, 0⟩]) = false := by
-  have mc : (⟨GV.Gen.StateMaps.localtxmonitor_client, GV.Spec.Automata.localTxMonitor, relLtm⟩ : Entry) ∈ table := by
-    have h : table[18]'(by decide) = ⟨GV.Gen.StateMaps.localtxmonitor_client, GV.Spec.Automata.localTxMonitor, relLtm⟩ := rfl
+  have mc : (⟨GV.Gen.StateMaps.localtxmonitor_client, GV.Spec.Automata.localTxMonitor, relLtm⟩ : Entry) ∈ tableOk := by
+    have h : tableOk[18]'(by decide) = ⟨GV.Gen.StateMaps.localtxmonitor_client, GV.Spec.Automata.localTxMonitor, relLtm⟩ := rfl
     rw [← h]; exact List.getElem_mem _
-  have ms : (⟨GV.Gen.StateMaps.localtxmonitor_server, GV.Spec.Automata.localTxMonitor, relLtm⟩ : Entry) ∈ table := by
-    have h : table[19]'(by decide) = ⟨GV.Gen.StateMaps.localtxmonitor_server, GV.Spec.Automata.localTxMonitor, relLtm⟩ := rfl
+  have ms : (⟨GV.Gen.StateMaps.localtxmonitor_server, GV.Spec.Automata.localTxMonitor, relLtm⟩ : Entry) ∈ tableOk := by
+    have h : tableOk[19]'(by decide) = ⟨GV.Gen.StateMaps.localtxmonitor_server, GV.Spec.Automata.localTxMonitor, relLtm⟩ := rfl
     rw [← h]; exact List.getElem_mem _
   have hc := (language_eq _ mc (pre ++ [⟨7, 0⟩, ⟨6, 0⟩])).1
   have hs := (language_eq _ ms (pre ++ [⟨7, 0⟩, ⟨6, 0⟩])).1
@@ -115,7 +140,7 @@ theorem reply_matches_request_ltm (pre : List Sym) :
   exact ⟨spec_ltm_reply_kind pre, spec_ltm_reply_kind pre⟩
 
 /-! ### non-vacuity -/
-example : table.length = 36 := by decide
+example : table.length = 38 ∧ tableOk.length = 36 := by decide
 example : GV.Gen.StateMaps.chainsync_ntn_client.accepts [⟨0, 0⟩, ⟨1, 0⟩, ⟨2, 0⟩, ⟨7, 0⟩] = true := by decide
 example : GV.Gen.StateMaps.chainsync_ntn_client.accepts [⟨0, 0⟩, ⟨5, 0⟩] = false := by decide
 /-- the checker is not trivially true: a specification with one edge changed is rejected -/
